@@ -33,20 +33,25 @@ def run(ctx):
         adt = A.adt(ty)
         fs = adt["variants"][0]["fields"]
         ctx.check("C01-R3", "%s is a newtype of %s" % (ty.split("::")[-1], inner.split("::")[-1]), len(fs) == 1 and fs[0]["ty"] == inner, "%s has fields %s: an intermediate buffer could reorder / retain bytes" % (ty, [(x["name"], x["ty"]) for x in fs]), adt["at"]["sp"])
-    f = A.fn("<wtransport::driver::streams::QuicRecvStream as wtransport_proto::bytes::AsyncRead>::poll_read")
-    with depth_limit(12):
-        sg = sorted(path_sig(p) for p in nonpanic(walk(f)))
-    RD = r"<RecvStream as AsyncRead>::poll_read\(self\.0,cx,ReadBuf::new\(buf\)\)"
-    okk = len(sg) == 3 and any(re.search(r"^return Poll::Ready\(Result::Ok\(<impl \[T\]>::len\(ReadBuf::filled\(ReadBuf::new\(buf\)\)\)\)\)$", l) for _, l in sg) and any(l == "return Poll::Pending" for _, l in sg)
-    ctx.check("C01-R3", "QuicRecvStream::poll_read (proto AsyncRead)", okk, "QuicRecvStream's AsyncRead impl no longer reads straight into the caller's buffer and returns filled().len(): %s" % [l for _, l in sg], where(f))
-    f = A.fn("<wtransport::driver::streams::QuicSendStream as wtransport_proto::bytes::AsyncWrite>::poll_write")
-    sg = [path_sig(p)[1] for p in nonpanic(walk(f))]
-    ctx.check("C01-R3", "QuicSendStream::poll_write (proto AsyncWrite)", sg == ["return <SendStream as AsyncWrite>::poll_write(self.0,cx,buf)"] or (len(sg) == 1 and re.match(r"^return <SendStream as AsyncWrite>::poll_write\(.*self\.0.*,cx,buf\)$", sg[0])), "QuicSendStream's AsyncWrite impl changed: %s" % sg, where(f))
+    shared.proto_io_adapters(ctx, "C01-R3")
     for tr, ty, m, argn in (("tokio::io::AsyncRead", "wtransport::stream::RecvStream", "poll_read", "buf"), ("tokio::io::AsyncWrite", "wtransport::stream::SendStream", "poll_write", "buf"),
                             ("tokio::io::AsyncRead", "wtransport::driver::streams::QuicRecvStream", "poll_read", "buf"), ("tokio::io::AsyncWrite", "wtransport::driver::streams::QuicSendStream", "poll_write", "buf")):
         f = A.fn("<%s as %s>::%s" % (ty, tr, m))
         sg = [path_sig(p)[1] for p in nonpanic(walk(f))]
         ctx.check("C01-R3", "%s::%s (tokio)" % (ty.split("::")[-1], m), len(sg) == 1 and re.match(r"^return <\w+ as Async(Read|Write)>::%s\(.*self\.0.*,cx,%s\)$" % (m, argn), sg[0]) is not None, "%s tokio %s does not delegate unchanged: %s" % (ty, m, sg), where(f))
+    # every method of every tokio AsyncRead / AsyncWrite impl of the crate delegates to the *same* method of the stream it wraps
+    # (poll_shutdown is what sends the FIN for `AsyncWriteExt::shutdown`; poll_flush must not stand in for it)
+    nio = 0
+    for g in A.fn_list:
+        m = re.match(r"^<wtransport::(.*) as tokio::io::Async(Read|Write)>::(poll_\w+)$", g.path)
+        if not m or not g.body:
+            continue
+        nio += 1
+        sg = [path_sig(p)[1] for p in nonpanic(walk(g))]
+        ctx.check("C01-R3", "%s::%s (tokio) delegates to the same method" % (m.group(1).split("::")[-1], m.group(3)),
+                  len(sg) == 1 and re.match(r"^return (<\w+ as Async(Read|Write)>|Async(Read|Write))::%s\(self\.[\w.]+,cx(,\w+)?\)$" % m.group(3), sg[0]) is not None,
+                  "%s does not delegate to the wrapped stream's %s: %s" % (g.path, m.group(3), sg), where(g), key="tokio delegation|%s" % g.path.replace("wtransport::", ""))
+    ctx.floor("C01-R3", "tokio AsyncRead/AsyncWrite methods", nio, 12)
     import rules.C06 as c06  # delegation of read/write/read_exact/write_all (value and count unchanged)
     for nm, inner in (("read", "QuicRecvStream::read(self.0,buf)"), ("read_exact", "QuicRecvStream::read_exact(self.0,buf)")):
         f = A.find1(r"^wtransport::stream::RecvStream::%s::\{closure#0\}$" % nm)
